@@ -11,6 +11,28 @@ BASELINE = json.load(open("/root/.vp/BASELINE.json"))["cmd"] if os.path.exists("
     "cd /repo && /venv/bin/python -m pytest -ra -q -p no:cacheprovider --timeout=900 --continue-on-collection-errors"
 BASELINE = BASELINE.replace(" --junitxml=<file>", "")
 props = [json.loads(l) for l in open(os.path.join(HERE, "properties.jsonl"))]
+TECHNIQUES = {
+ "C01": "runtime monitoring: instrumented execution of generated programs under CPython, online membership oracle on every evaluated node, witness minimisation",
+ "C02": "runtime monitoring: CPython decides the branch taken for inhabitants of the declared type; membership oracle judges the narrowed type read from the real checker",
+ "C03": "runtime monitoring: differential oracle — real is_assignable / checker verdict vs executable membership model over an object universe",
+ "C04": "runtime monitoring: real can_assign verdicts judged by a membership oracle over an object universe plus algebraic-law monitors",
+ "C05": "runtime monitoring: reference-executor oracle — every generated call is checked by pyanalyze and executed by CPython (exhaustive small signatures x call shapes)",
+ "C06": "runtime monitoring: calls checked by pyanalyze then executed; argument membership oracle and result-in-inferred-type monitor",
+ "C07": "runtime monitoring: accepted callable pairs are executed on every call shape the expected signature binds (CPython as oracle)",
+ "C08": "runtime monitoring: differential check of reveal_type/diagnostics against a 40-line reference resolver of the documented algorithm",
+ "C09": "runtime monitoring with fault enumeration: all decision/failpoint schedules of instrumented skeletons are executed; observed reaching definitions bound the checker's answer from both sides",
+ "C10": "runtime monitoring: differential observation of rendered diagnostics under perturbed hash seeds, heap layouts, repetition, check histories and file order",
+ "C11": "runtime monitoring: set-algebra oracle over diagnostics of the real checker under every disabling route and ignore-comment placement",
+ "C12": "runtime monitoring: grammar fuzzing with crash/internal-error/well-formedness monitors (in-situ contract on show_error), faulthandler and -X dev",
+ "C13": "runtime monitoring: commuting-diagram monitor over the real code's three annotation evaluators and two signature builders",
+ "C14": "runtime monitoring: algebraic-law monitors on real return values of the value API plus an in-situ contract on unite_values",
+ "C15": "runtime monitoring: post-condition monitor on resolve_bounds_map over all permutations of bound multisets, in-situ on generic calls",
+ "C16": "runtime monitoring: fix/apply/recheck histories executed; parse, re-report, behavioural equivalence (effect traces) and fixpoint monitors",
+ "C17": "runtime monitoring: reference-executor oracle — CPython's formatter evaluates every generated template/argument pair",
+ "C18": "runtime monitoring: differential check of the real option lookup against a 15-line reference precedence model over generated config stacks",
+ "C19": "runtime monitoring: reference-executor oracle — CPython performs every generated operation on literal operands",
+ "C20": "runtime monitoring: differential check against a reference interpreter of the documented evaluation rules plus a metamorphic union law",
+}
 checks = []
 na = []
 NA_REASONS = json.load(open(os.path.join(HERE, "tools", "not_applicable.json")))
@@ -32,11 +54,14 @@ for p in props:
         "engine": "vp",
         "level_claimed": {
             "category": getattr(mod, "LEVEL", "exploration"),
-            "text": getattr(mod, "LEVEL_TEXT", mod.RULE),
+            "text": getattr(mod, "LEVEL_TEXT", None) or (
+                "Held on the executions actually produced (never 'verified'): an executable oracle observes the real pyanalyze "
+                "on a generated, boundary-biased workload; every run reports how many cases it explored, how many were distinct and "
+                "non-trivial, what the monitors saw, and exits inconclusive when a monitor was not reached. Workload: " + " ".join(mod.RULE.split())),
             "design_ref": f"DESIGN.md §3 {pid}",
         },
         "level_note": "; ".join(getattr(mod, "ASSUMPTIONS", [])),
-        "technique": getattr(mod, "TECHNIQUE", "runtime monitoring: generated workload executed against the real code, judged by an executable oracle"),
+        "technique": TECHNIQUES.get(pid) or getattr(mod, "TECHNIQUE", "runtime monitoring: generated workload executed against the real code, judged by an executable oracle"),
     })
 manifest = {
     "version": 1,
